@@ -77,6 +77,7 @@ func main() {
 	noReplay := flag.Bool("no-replay", false, "do not replay violations natively")
 	replayFile := flag.String("replay", "", "replay a recorded counterexample natively")
 	cpuprof := flag.String("cpuprofile", "", "write cpu profile")
+	nValidate := flag.Int("validate", 4, "number of concrete engine-vs-native differential runs")
 	maxSec := flag.Int("max-seconds", 0, "per-instance deadline override")
 	flag.Parse()
 	debug.SetGCPercent(800)
@@ -99,7 +100,7 @@ func main() {
 		*tier = t
 	}
 	d := &driver{prop: *prop, tier: *tier, workers: *workers, seed: *seed, verif: *verifDir, only: *only,
-		verbose: *verbose, solver: *solver, paramOverride: *paramOverride, noReplay: *noReplay, maxSec: *maxSec}
+		verbose: *verbose, solver: *solver, paramOverride: *paramOverride, noReplay: *noReplay, maxSec: *maxSec, nValidate: *nValidate}
 	code := d.main()
 	pprof.StopCPUProfile()
 	os.Exit(code)
@@ -125,6 +126,8 @@ type driver struct {
 	solver        string
 	paramOverride string
 	noReplay      bool
+	nValidate     int
+	validation    *validationOutcome
 	maxSec        int
 
 	cfg   Config
@@ -169,6 +172,7 @@ func (d *driver) main() int {
 		return d.fatal("no harness instances selected for %s tier %s", d.prop, d.tier)
 	}
 	var all []*result
+	progs := map[string]*interp.Program{}
 	loadTime := 0.0
 	for _, set := range sets {
 		t0 := time.Now()
@@ -180,6 +184,7 @@ func (d *driver) main() int {
 		if d.verbose > 0 {
 			fmt.Printf("loaded (scale set %q) in %.1fs, %d instances\n", set, time.Since(t0).Seconds(), len(bySet[set]))
 		}
+		progs[set] = prog
 		res := d.explore(prog, bySet[set])
 		for _, r := range res {
 			r.scaleSet = set
@@ -187,6 +192,7 @@ func (d *driver) main() int {
 		}
 		all = append(all, res...)
 	}
+	d.validation = d.validate(all, progs, d.nValidate)
 	return d.report(all, loadTime)
 }
 
